@@ -36,8 +36,15 @@ def _some_params():
 
 
 def m_from_params(cls, params):
-    models.used('cryptodatahub PublicKey.from_params(params): returns a PublicKey whose .params are the given parameters '
-                '(never raises); .key_type is some member of Authentication')
+    models.used('cryptodatahub PublicKey.from_params(params): returns a PublicKey whose .params are the given parameters; '
+                '.key_type is some member of Authentication; for ECDSA parameters it raises ValueError (math domain error, '
+                'asn1crypto ECPointBitString.from_coords) iff a coordinate is not positive')
+    if isinstance(params, SObj) and params.cls is CK.PublicKeyParamsEcdsa and 'point_x' in params.f and 'point_y' in params.f:
+        P = E.cur()
+        x, y = params.f['point_x'], params.f['point_y']
+        if ops.is_intlike(x) and ops.is_intlike(y):
+            if P.branch(z3.Or(ops.as_int(x) <= 0, ops.as_int(y) <= 0)):
+                raise_(ValueError, 'math domain error')
     if isinstance(params, (SObj, SAbs)):
         return _abs('PublicKey', CK.PublicKey, dict(key_type=_some_key_type(), params=params))
     return _abs('PublicKey', CK.PublicKey, dict(key_type=_some_key_type(), params=_some_params()))
